@@ -1,5 +1,6 @@
 import TbbVerif.Core.Proto
 import TbbVerif.Model.C05
+import TbbVerif.Generated.C05Stride
 
 open TbbVerif TbbVerif.C05
 
@@ -84,6 +85,76 @@ def legalTree (g P : Nat) : Nat → List Nat → Bool
               let right := ms.dropWhile (· < m)
               legalTree g P f left && legalTree g P f right
             else false)
+
+/-! index form: the REGENERATED expressions, evaluated (`cnt <T> <N|C> first last step` prints
+`<step bad> <non-empty> <count> <range begin>`; `val <T> first step b j` prints the index the body wrapper passes at the
+j-th iteration of a chunk that starts at iteration b) -/
+section stride
+open TbbVerif.Generated.C05Stride
+
+def cntS? (ty v : String) : Option ((Int → Bool) × (Int → Int → Bool) × (Int → Int → Int → Int) × Int) :=
+  match ty, v with
+  | "i16", "N" => some (stepBad_i16, nonEmpty_i16, cnt_i16, rangeBegin_i16)
+  | "i16", "C" => some (stepBadCtx_i16, nonEmptyCtx_i16, cntCtx_i16, rangeBeginCtx_i16)
+  | "i32", "N" => some (stepBad_i32, nonEmpty_i32, cnt_i32, rangeBegin_i32)
+  | "i32", "C" => some (stepBadCtx_i32, nonEmptyCtx_i32, cntCtx_i32, rangeBeginCtx_i32)
+  | "i64", "N" => some (stepBad_i64, nonEmpty_i64, cnt_i64, rangeBegin_i64)
+  | "i64", "C" => some (stepBadCtx_i64, nonEmptyCtx_i64, cntCtx_i64, rangeBeginCtx_i64)
+  | _, _ => none
+
+def cntU? (ty v : String) : Option ((Nat → Bool) × (Nat → Nat → Bool) × (Nat → Nat → Nat → Nat) × Nat) :=
+  match ty, v with
+  | "u16", "N" => some (stepBad_u16, nonEmpty_u16, cnt_u16, rangeBegin_u16)
+  | "u16", "C" => some (stepBadCtx_u16, nonEmptyCtx_u16, cntCtx_u16, rangeBeginCtx_u16)
+  | "u32", "N" => some (stepBad_u32, nonEmpty_u32, cnt_u32, rangeBegin_u32)
+  | "u32", "C" => some (stepBadCtx_u32, nonEmptyCtx_u32, cntCtx_u32, rangeBeginCtx_u32)
+  | "u64", "N" => some (stepBad_u64, nonEmpty_u64, cnt_u64, rangeBegin_u64)
+  | "u64", "C" => some (stepBadCtx_u64, nonEmptyCtx_u64, cntCtx_u64, rangeBeginCtx_u64)
+  | _, _ => none
+
+def idxS? (ty : String) : Option ((Int → Int → Int → Int) × (Int → Int → Int)) :=
+  match ty with
+  | "i16" => some (idx0_i16, idxNext_i16) | "i32" => some (idx0_i32, idxNext_i32) | "i64" => some (idx0_i64, idxNext_i64)
+  | _ => none
+
+def idxU? (ty : String) : Option ((Nat → Nat → Nat → Nat) × (Nat → Nat → Nat)) :=
+  match ty with
+  | "u16" => some (idx0_u16, idxNext_u16) | "u32" => some (idx0_u32, idxNext_u32) | "u64" => some (idx0_u64, idxNext_u64)
+  | _ => none
+
+def bitsOf (ty : String) : Nat := if ty.endsWith "16" then 16 else if ty.endsWith "32" then 32 else 64
+def inS (ty : String) (x : Int) : Bool := decide (-(2 ^ (bitsOf ty - 1) : Int) ≤ x ∧ x < (2 ^ (bitsOf ty - 1) : Int))
+def inU (ty : String) (x : Nat) : Bool := decide (x < 2 ^ bitsOf ty)
+
+open Proto in
+def strideStep (ws : List String) : String :=
+  match ws with
+  | ["cnt", ty, v, f, l, s] =>
+    match cntS? ty v, int? f, int? l, int? s with
+    | some (bad, run, cnt, rb), some f, some l, some s =>
+      if inS ty f && inS ty l && inS ty s then
+        -- the count expression is only evaluated where the code evaluates it
+        if bad s then s!"1 - - {rb}" else if !run f l then s!"0 0 - {rb}" else s!"0 1 {cnt f l s} {rb}"
+      else "bad-op"
+    | _, _, _, _ =>
+      match cntU? ty v, nat? f, nat? l, nat? s with
+      | some (bad, run, cnt, rb), some f, some l, some s =>
+        if inU ty f && inU ty l && inU ty s then
+          if bad s then s!"1 - - {rb}" else if !run f l then s!"0 0 - {rb}" else s!"0 1 {cnt f l s} {rb}"
+        else "bad-op"
+      | _, _, _, _ => "bad-op"
+  | ["val", ty, f, s, b, j] =>
+    match idxS? ty, int? f, int? s, int? b, nat? j with
+    | some (i0, nx), some f, some s, some b, some j =>
+      if inS ty f && inS ty s && inS ty b && j ≤ 100000 then toString (chunkVal nx s (i0 f s b) j) else "bad-op"
+    | _, _, _, _, _ =>
+      match idxU? ty, nat? f, nat? s, nat? b, nat? j with
+      | some (i0, nx), some f, some s, some b, some j =>
+        if inU ty f && inU ty s && inU ty b && j ≤ 100000 then toString (chunkVal nx s (i0 f s b) j) else "bad-op"
+      | _, _, _, _, _ => "bad-op"
+  | _ => "bad-op"
+
+end stride
 
 structure St where
   rv : Option (RV R1) := none
@@ -199,6 +270,8 @@ def step (st : St) (ws : List String) : St × String :=
       if ms.length ≥ 2 ∧ ms.Pairwise (· < ·) ∧ ms.all (· < U64) then (st, showBool (legalTree g P (ms.length + 2) ms))
       else (st, "bad-op")
     | _, _, _ => (st, "bad-op")
+  | "cnt" :: _ => (st, strideStep ws)
+  | "val" :: _ => (st, strideStep ws)
   | _ => (st, "bad-op")
 
 def driver : Proto.Driver := { σ := St, init := {}, step := step }
